@@ -239,7 +239,7 @@ fn refs_of(v: &Json) -> Vec<(String, usize)> {
 /// Apply one edit; returns {ok, id}.  A panic inside walrus is reported as ok=false, id=-2.
 pub fn apply(m: &mut Module, e: &Json) -> Json {
     let op = e["op"].as_str().unwrap_or("");
-    let mut extra: Option<(Vec<usize>, Vec<usize>)> = None;
+    let mut extra: Option<(Vec<usize>, Vec<usize>, Option<(Vec<i32>, i32)>)> = None;
     let r = catch_unwind(AssertUnwindSafe(|| -> (bool, i64) {
         match op {
             "add_export" => {
@@ -391,12 +391,15 @@ pub fn apply(m: &mut Module, e: &Json) -> Json {
                 let res = resolve(m, &refs_of(&e["refs"]));
                 let results: Vec<ValType> = m.types.get(m.funcs.get(f).ty()).results().to_vec();
                 // the replacement body reads every parameter it is handed (and drops it)
+                // ... and writes a scratch local that was allocated before the parameters of the new function exist
+                let scratch = m.locals.add(ValType::I64);
                 let mut handed: Vec<usize> = vec![];
                 let mut fill = |body: &mut InstrSeqBuilder, args: &Vec<LocalId>| {
                     handed = args.iter().map(|a| a.index()).collect();
                     for a in args {
                         body.local_get(*a).drop();
                     }
+                    body.i64_const(7).local_set(scratch);
                     build_body(body, &res, &results);
                 };
                 let r = if op == "replace_imported" {
@@ -411,7 +414,18 @@ pub fn apply(m: &mut Module, e: &Json) -> Json {
                             FunctionKind::Local(lf) => lf.args.iter().map(|a| a.index()).collect(),
                             _ => vec![usize::MAX],
                         };
-                        extra = Some((handed, params));
+                        // how the new body comes out: a trial emission (emit_wasm leaves the Module as it is) read back
+                        let mut emitted: Option<(Vec<i32>, i32)> = None;
+                        if let Ok(em) = crate::run::emit(m, true) {
+                            if let (Some((_, fi)), Ok(am)) = (em.emit.func.iter().find(|(i, _)| *i == id.index() as i32), crate::absmod::project(&em.bytes)) {
+                                if let Some(af) = am.funcs.iter().find(|g| g.idx as i32 == *fi) {
+                                    let reads: Vec<i32> = af.ops.iter().filter(|o| o.o == "LocalGet").take(params.len()).map(|o| o.local).collect();
+                                    let sc = af.ops.iter().find(|o| o.o == "LocalSet").map(|o| o.local).unwrap_or(-1);
+                                    emitted = Some((reads, sc));
+                                }
+                            }
+                        }
+                        extra = Some((handed, params, emitted));
                         (true, id.index() as i64)
                     }
                     Err(_) => (false, -1),
@@ -422,7 +436,10 @@ pub fn apply(m: &mut Module, e: &Json) -> Json {
     }));
     match r {
         Ok((ok, id)) => match extra {
-            Some((handed, params)) => json!({"ok": ok, "id": id, "handed": handed, "params": params}),
+            Some((handed, params, emitted)) => match emitted {
+                Some((reads, sc)) => json!({"ok": ok, "id": id, "handed": handed, "params": params, "trial": true, "reads": reads, "scratch": sc}),
+                None => json!({"ok": ok, "id": id, "handed": handed, "params": params, "trial": false, "reads": [], "scratch": -1}),
+            },
             None => json!({"ok": ok, "id": id}),
         },
         Err(p) => json!({"ok": false, "id": -2, "panic": crate::run::short(&crate::run::panic_msg(p))}),
